@@ -41,8 +41,11 @@ def run(ck):
     hb, msg = vlib.build_harness()
     docs = common.fixture_docs(1 if not ck.quick else 3)
     g = docgen.Gen(ck.rng)
-    for _ in range(300 if ck.quick else 10000):
-        docs.append(("gen", docgen.to_mjml(g.document())))
+    for k in range(300 if ck.quick else 10000):
+        d = g.document()
+        if k % 2:
+            docgen.with_inline_classes(d, ck.rng)      # inline rules meeting classes on components and in author HTML
+        docs.append(("gen", docgen.to_mjml(d)))
     failing = explore(ck, hb, docs)
     ck.sample({"document": docs[-1][1][:300], "paths": ["RenderFromAST", "RenderFromAST(debug)", "NewFromAST+RenderComponentString x2", "2 concurrent RenderFromAST", "cached RenderWithAST x3"]})
     ck.cov["rule"] = ("fixtures (quick: every third, thorough: all 207) + generated full-grammar documents; for each: parse once, deep "
